@@ -109,6 +109,11 @@ pub fn run_session(bin: &PathBuf, mode: &Mode, roots: &[History], seed: u64, sid
             return vec![];
         }
     };
+    // the engine's one option (a log file in the scratch directory) is on in a third of the sessions
+    if rng.chance(1, 3) {
+        s.eng.send(*rng.pick(&["setoption name DebugLogLevel value Info", "setoption DebugLogLevel Info"]));
+        acc.feature("session_with_log_file_switched_on");
+    }
     let mut go_count = 0u64;
     let mut panics_seen = 0usize;
     'outer: for _step in 0..steps {
@@ -265,7 +270,7 @@ pub fn run_parallel<T: Send>(threads: usize, n: usize, f: impl Fn(usize) -> T + 
 
 pub fn run(tier: Tier, seed: u64) -> i32 {
     let mut run = Run::new("C03", tier, seed, "exploration");
-    run.rule = "evaluation = one `go` sent to the real binary in a UCI session (history recorded at the client boundary: send events before writing, receive events stamped when read). Sessions: position commands from oracle-built histories (startpos/FEN + legal move lists, non-terminal), go parameters from a grid of clock values (absent, 0, negative, -10^18, 1, 99..3000; huge values for the side not to move; unknown tokens mixed in; planned slice <= 150 ms), chains of 1..8 (quick) / 1..30 (thorough) go without a new position. Checked per go: exactly one bestmove line before the next readyok boundary, long-algebraic spelling, legality in the oracle-tracked current position, promotion letter iff promoting. Schedules: plain binary 16 and 48 engines in parallel, plain binary pinned to one CPU per engine, hooked binary with seeded failpoint delays at six pre-emptible points of the two threads, whose internal event log is checked offline (FIFO/exactly-once between search_send and io_recv, printed move = last received, every sent move legal); pipelined sessions on the plain binary: the whole script (positions, go chains with plans <= 30 ms, isready) written without waiting for replies - in one write, line by line, or in pieces of 1..40 bytes that cut lines in two - and ended by nothing, quit or end of input; checked offline: the bestmove/readyok lines appear in exactly the order of the go/isready lines, every bestmove legal in the tracked position. Non-trivial = every go; distinct by (mode, position, go line, session)".into();
+    run.rule = "evaluation = one `go` sent to the real binary in a UCI session (history recorded at the client boundary: send events before writing, receive events stamped when read). Sessions: position commands from oracle-built histories (startpos/FEN + legal move lists, non-terminal), go parameters from a grid of clock values (absent, 0, negative, -10^18, 1, 99..3000; huge values for the side not to move; unknown tokens mixed in; planned slice <= 150 ms), chains of 1..8 (quick) / 1..30 (thorough) go without a new position. Checked per go: exactly one bestmove line before the next readyok boundary, long-algebraic spelling, legality in the oracle-tracked current position, promotion letter iff promoting. Schedules: plain binary 16 and 48 engines in parallel, plain binary pinned to one CPU per engine, hooked binary with seeded failpoint delays at six pre-emptible points of the two threads, whose internal event log is checked offline (FIFO/exactly-once between search_send and io_recv, printed move = last received, every sent move legal); info-burst sessions: mate-in-one roots, on which the search prints about a hundred info lines within a millisecond or two, with slices of 1-4 ms so that bestmove is printed while the burst is in flow (exactly one well-formed legal bestmove line each); pipelined sessions on the plain binary: the whole script (positions, go chains with plans <= 30 ms, isready) written without waiting for replies - in one write, line by line, or in pieces of 1..40 bytes that cut lines in two - and ended by nothing, quit or end of input; checked offline: the bestmove/readyok lines appear in exactly the order of the go/isready lines, every bestmove legal in the tracked position. Non-trivial = every go; distinct by (mode, position, go line, session)".into();
     run.assumptions = vec![
         "a missing answer is a violation only when the process has died or its search thread is gone (/proc/<pid>/task); a watchdog expiry with a live search thread is inconclusive".into(),
         "a 'panicked' line on stderr that does not cost the answer is counted and handed to C07, it is not a C03 refuter".into(),
@@ -347,6 +352,8 @@ pub fn run(tier: Tier, seed: u64) -> i32 {
             run.acc.merge(a, &[]);
         }
     }
+    // info bursts at the deadline: both threads write to standard output at the same moment
+    super::timed::burst_sessions(&mut run, "C03");
     // a go that was still unanswered 10 s after its plan while the search thread kept running:
     // three solo re-runs on the now idle machine, a violation only if none is answered
     run.set("unanswered_cases", json!(unanswered_all.len()));
